@@ -442,8 +442,8 @@ def patch_persistent():
 
 def catalogue():
     """name -> (datatype factory, [v0 (default), v1, v2, extra...], [stored entries that are NOT valid values])"""
-    from frappy.datatypes import ArrayOf, BLOBType, BoolType, EnumType, FloatRange, IntRange, ScaledInteger, \
-        StringType, StructOf, TupleOf
+    from frappy.datatypes import ArrayOf, BLOBType, BoolType, EnumType, FloatRange, IntRange, LimitsType, \
+        ScaledInteger, StringType, StructOf, TupleOf
     return {
         'int': (lambda: IntRange(0, 10), [1, 7, 10, 0], [55, -1, 3.7, '3', None, [1]]),
         'float': (lambda: FloatRange(-100, 100), [1.0, 0.1 + 0.2, -99.5, 1e-300], ['x', 1000.5, None, [1.0]]),
@@ -466,6 +466,11 @@ def catalogue():
                     [{'n': 0, 't': '', 'f': 0.0}, {'n': 3, 't': 't', 'f': 0.25}, {'n': 10, 't': '[]', 'f': 1.0},
                      {'n': 1, 't': ' ', 'f': 0.1}],
                     [{'n': 3}, {'n': 3, 't': '', 'f': 0.5, 'z': 1}, {'n': 3, 't': '', 'f': 2.5}, [1], None, 'x']),
+        'strlim': (lambda: StringType(2, 6), ['ab', 'abcdef', 'x y', 'zz'], ['a', 'abcdefg', 'a\x00b', '\xe9\xe9', 5, None]),
+        # persistent limits (PersistentLimit): the datatype is derived from the base parameter FloatRange(0, 100)
+        'limits': (lambda: LimitsType(FloatRange(0, 100)), [(0.0, 100.0), (2.0, 50.0), (10.5, 10.5), (0.0, 1.0)],
+                   [[50, 2], [1], 'x', None, [-5, 10], [1, 2, 3], [0, 1000]]),
+        'limmax': (lambda: FloatRange(0, 100), [100.0, 60.0, 0.0, 0.5], [101, 'x', None, [1]]),
         'nested': (lambda: ArrayOf(StructOf(a=ScaledInteger(0.01, 0, 1), e=EnumType('e', x=0, y=1), b=BoolType()), 0, 3),
                    [(), ({'a': 0.29, 'e': 1, 'b': True},),
                     ({'a': 0.0, 'e': 0, 'b': False}, {'a': 1.0, 'e': 1, 'b': True}), ({'a': 0.5, 'e': 0, 'b': True},)],
@@ -475,8 +480,10 @@ def catalogue():
 
 SHAPES = [('int', 'struct', 'array'), ('scaled', 'tuple', 'string'), ('enum', 'nested', 'blob'),
           ('float', 'array', 'int'), ('string', 'floatu', 'structm'), ('blob', 'enum', 'tuple')]
-ALLTYPES = ['int', 'float', 'floatu', 'scaled', 'bool', 'string', 'blob', 'enum', 'array', 'tuple', 'struct', 'structm',
-            'nested']
+ALLTYPES = ['int', 'float', 'floatu', 'scaled', 'bool', 'string', 'strlim', 'blob', 'enum', 'array', 'tuple', 'struct',
+            'structm', 'nested', 'limits', 'limmax']
+LIMIT_POSTFIX = {'limits': '_limits', 'limmax': '_max'}
+FOREIGN = {'np': [0.0, 1.5, -2.0], 'poff': [1, 7, 10]}      # parameters that are NOT persistent: abstract v0, v1, v2
 
 
 def canon(obj):
@@ -486,36 +493,79 @@ def canon(obj):
 class World:
     """a real PersistentMixin module class over chosen datatypes, living on a FakeFS"""
 
-    def __init__(self, types, auto=(), haswrite=(), fs=None, buffered=False):
+    def __init__(self, types, auto=(), haswrite=(), fs=None, buffered=False, nodef=()):
+        """auto / haswrite / nodef: indices (0-based) or names of the parameters that save automatically /
+        have a write method / are declared without a default value"""
         self.fp = patch_persistent()
         from frappy.modules import Module
         from frappy.params import Parameter
-        from frappy.datatypes import FloatRange
+        from frappy.datatypes import FloatRange, IntRange
+        from frappy.errors import CommunicationFailedError
         cat = catalogue()
-        self.pnames = ['p%d' % (k + 1) for k in range(len(types))]
+        self.pnames = ['b%d%s' % (k + 1, LIMIT_POSTFIX[t]) if t in LIMIT_POSTFIX else 'p%d' % (k + 1)
+                       for k, t in enumerate(types)]
+        std = {'p%d' % (k + 1): n for k, n in enumerate(self.pnames)}
+        norm = lambda names: {self.pnames[x] if isinstance(x, int) else std.get(x, x) for x in names}
         self.types = dict(zip(self.pnames, types))
         self.values = {}
         self.dts = {}
         self.bad = {}
-        self.auto = set(auto)
-        self.haswrite = set(haswrite)
+        self.auto = norm(auto)
+        self.haswrite = norm(haswrite)
+        self.nodef = {p for p in norm(nodef) if self.types[p] not in LIMIT_POSTFIX}
+        self.fail = {}           # p -> 'read' | 'write': the hardware access fails once
         ns = {}
         world = self
+
+        def mk_read(p):
+            def read(self):
+                if world.fail.pop(p, None) == 'read':
+                    raise CommunicationFailedError('no reply')
+                return self._hw[p]
+            return read
+
+        def mk_write(p):
+            def write(self, value):
+                if world.fail.pop(p, None) == 'write':
+                    raise CommunicationFailedError('no reply')
+                self._hw[p] = value
+                return value
+            return write
+
         for p, t in self.types.items():
             mk, vals, bad = cat[t]
             dt = mk()
             self.dts[p] = dt
-            self.values[p] = [dt(v) for v in vals]
+            vals = [dt(v) for v in vals]
+            if p in self.nodef:
+                # declared without default: the datatype's default is what "default" means for this parameter
+                vals = [dt(dt.default)] + [v for v in vals if v != dt(dt.default)]
+            self.values[p] = vals
             # the datatype is the authority on what a usable entry is (frappy's datatypes evolve)
             self.bad[p] = [b for b in bad if self.usable(p, b)[0] == 'bad']
-            ns[p] = self.fp.PersistentParam('', dt, default=vals[0], persistent='auto' if p in self.auto else 'on',
-                                            readonly=p not in self.haswrite)
+            flag = 'auto' if p in self.auto else 'on'
+            if t in LIMIT_POSTFIX:
+                base = p[:p.index('_')]
+                ns[base] = Parameter('base of a limit', FloatRange(0, 100), default=50.0, readonly=False)
+                try:
+                    ns[p] = self.fp.PersistentLimit(persistent=flag)
+                except Exception:
+                    ns[p] = self.fp.PersistentLimit()      # (is not even a persistent parameter in this tree)
+                    self.auto.discard(p)
+            else:
+                kw = {} if p in self.nodef else {'default': vals[0]}
+                ns[p] = self.fp.PersistentParam('', dt, persistent=flag, readonly=p not in self.haswrite, **kw)
+            ns['read_' + p] = mk_read(p)
             if p in self.haswrite:
-                ns['write_' + p] = lambda self, value: value
-        ns['np'] = Parameter('not persistent', FloatRange(), default=0.0, readonly=False)
+                ns['write_' + p] = mk_write(p)
+        ns['_hw'] = None
+        ns['np'] = Parameter('not persistent', FloatRange(), default=FOREIGN['np'][0], readonly=False)
+        ns['poff'] = self.fp.PersistentParam('persistence switched off', IntRange(0, 10), default=FOREIGN['poff'][0],
+                                             persistent='off', readonly=False)
 
         def __init__(self, *args):
             world.under_construction = self
+            self._hw = {}
             super(cls, self).__init__(*args)
 
         ns['__init__'] = __init__
@@ -572,7 +622,14 @@ class World:
                 e['vals'] = self.cur_vals()
             except Exception:
                 e['vals'] = {p: '?' for p in self.pnames}
+            if e['target'] != e['cur'] and e['target'].startswith('c:'):
+                e['notstored'] = self.not_stored(e['vals'])
         self.trace.append(e)
+
+    def not_stored(self, vals):
+        """datatypes of the parameters whose entry in the file does not stand for the value in memory"""
+        ent, _ = self.stored_entries()
+        return sorted({self.types[p] for p in self.pnames if ent.get(p) != vals.get(p)})
 
     def stored_entries(self):
         """what every entry of the stored file stands for: value id | 'bad' | '-' (+ description for signatures)"""
@@ -584,6 +641,8 @@ class World:
             obj = json.loads(raw.decode('utf-8'))
         except ValueError:
             return none, {'top': 'notjson'}
+        except RecursionError:
+            return none, {'top': 'notjson', 'nesting': 'deep'}
         if not isinstance(obj, dict):
             return none, {'top': 'notdict'}
         res, badkinds = {}, {}
@@ -604,6 +663,26 @@ class World:
         return res, {'top': 'dict', 'badkinds': badkinds, 'unknown': sorted(k for k in obj if k not in self.pnames)[:3]}
 
     # -- abstract <-> concrete
+    def pn(self, P):
+        """abstract parameter 'P2' -> name of the concrete parameter"""
+        return self.pnames[int(P[1:]) - 1]
+
+    def PN(self, p):
+        return 'P%d' % (self.pnames.index(p) + 1)
+
+    def foreign_id(self, mod=None):
+        """abstract value of the parameters that are not persistent (they move together)"""
+        mod = mod or self.m
+        ids = set()
+        for q, vals in FOREIGN.items():
+            v = mod.parameters[q].value
+            ids.add(next(('v%d' % k for k, x in enumerate(vals) if x == v), 'other:%s=%r' % (q, v)))
+        return ids.pop() if len(ids) == 1 else 'other:' + ','.join(sorted(ids))
+
+    def errs(self, mod=None):
+        mod = mod or self.m
+        return sorted(p for p in self.pnames if mod.parameters[p].readerror is not None)
+
     def gamma(self, p, v):
         """abstract value id 'v2' -> concrete value"""
         return self.values[p][int(v[1:])]
@@ -663,7 +742,7 @@ class World:
             return 'absent'
         try:
             obj = json.loads(raw.decode('utf-8'))
-        except ValueError:
+        except (ValueError, RecursionError):
             return 'partial'
         if not isinstance(obj, dict):
             return 'partial'
@@ -696,8 +775,8 @@ class World:
         return m is not None and getattr(m, 'persistentData', None) == self.cur_export()
 
     # -- actions
-    def start(self, cfg=None, plan=None):
-        """(re)create the module from the disk.  cfg: {p: concrete value}"""
+    def start(self, cfg=None, plan=None, cdef=None):
+        """(re)create the module from the disk.  cfg: {p: configured value}, cdef: {p: configured default}"""
         from frappy.config import Param
         self.m = None
         self.under_construction = None
@@ -707,6 +786,8 @@ class World:
         cfgdict = {'description': ''}
         for p, v in (cfg or {}).items():
             cfgdict[p] = Param(v)
+        for p, v in (cdef or {}).items():
+            cfgdict[p] = Param(default=v)
         self.start_error = None
         self.log = LoggerStub('m')
         pre = self.target_class()
@@ -715,7 +796,10 @@ class World:
         self.trace.append({'ev': 'boot', 'pre': pre, 'file': entries, 'descr': descr})
         dflt = {p: self.val_id(p, self.values[p][0]) for p in self.pnames}
         cfgids = {p: (self.val_id(p, self.dts[p](cfg[p])) if p in (cfg or {}) else '-') for p in self.pnames}
-        ev = {'ev': 'start', 'ok': False, 'cfg': cfgids, 'def': dflt, 'got': dflt, 'skip': False}
+        cdefids = {p: (self.val_id(p, self.dts[p](cdef[p])) if p in (cdef or {}) else '-') for p in self.pnames}
+        ev = {'ev': 'start', 'ok': False, 'cfg': cfgids, 'cdef': cdefids, 'def': dflt, 'got': dflt, 'skip': False,
+              'nodef': {p: p in self.nodef for p in self.pnames}, 'err': {p: False for p in self.pnames},
+              'fgot': {q: 'v0' for q in FOREIGN}}
         try:
             self.m = self.cls('m', self.log, cfgdict, _Srv())
             out = 'ok'
@@ -729,7 +813,11 @@ class World:
             self.start_error = repr(e)
             out = 'failed'
         if self.m is not None:
-            ev.update(ok=True, got=self.cur_vals(self.m), skip=self.skip_flag())
+            errs = self.errs()
+            ev.update(ok=True, got=self.cur_vals(self.m), skip=self.skip_flag(),
+                      err={p: p in errs for p in self.pnames},
+                      fgot={q: next(('v%d' % k for k, x in enumerate(vals) if x == self.m.parameters[q].value), 'other')
+                            for q, vals in FOREIGN.items()})
         ev.update(target=self.target_class(), cur=self.cur_class(), error=self.start_error)
         self.trace.append(ev)
         return out
@@ -757,10 +845,12 @@ class World:
         """loadParameters(): what a driver does when it detects a power cycle of the hardware"""
         entries, descr = self.stored_entries()
         before = self.cur_vals(self.m)
+        fbefore = self.foreign_id()
         out = self.call(self.m.loadParameters, plan, 'reload', False)
         ret = self.trace.pop()
         ret.update(ev='reload', file=entries, descr=descr, before=before, ok=out == 'ok', cfg={p: '-' for p in before},
-                   got=self.cur_vals(self.m) if self.m is not None else before)
+                   got=self.cur_vals(self.m) if self.m is not None else before, fbefore=fbefore,
+                   fgot=self.foreign_id() if self.m is not None else fbefore)
         ret['def'] = before
         self.trace.append(ret)
         return out
@@ -771,11 +861,49 @@ class World:
         self.trace.append({'ev': 'ret', 'call': 'stop', 'out': 'crash', 'must': False, 'faults': 0,
                            'target': self.target_class(), 'cur': 'none', 'skip': False})
 
-    def change(self, p, value, plan=None):
+    def change(self, p, value, plan=None, via=None, fail=False):
+        """via: 'set' (driver assigns), 'write' (client change), 'read' (read back from the hardware)"""
         m = self.m
-        if p in self.haswrite:
-            return self.call(lambda: getattr(m, 'write_' + p)(value), plan, 'change', p in self.auto)
-        return self.call(lambda: setattr(m, p, value), plan, 'change', p in self.auto)
+        via = via or ('write' if p in self.haswrite else 'set')
+        if fail and via in ('read', 'write'):
+            self.fail[p] = via
+        if via == 'write':
+            fn = lambda: getattr(m, 'write_' + p)(value)
+        elif via == 'read':
+            def fn():
+                m._hw[p] = value
+                getattr(m, 'read_' + p)()
+        else:
+            fn = lambda: setattr(m, p, value)
+        out = self.call(fn, plan, 'change', p in self.auto and not fail)
+        self.fail.pop(p, None)
+        return out
+
+    def fchange(self, k):
+        """the parameters that are not persistent change to their k-th value"""
+        m = self.m
+
+        def fn():
+            for q, vals in FOREIGN.items():
+                setattr(m, q, vals[k])
+        return self.call(fn, None, 'fchange', False)
+
+    def reset(self, plan=None):
+        """factory_reset"""
+        out = self.call(self.m.factory_reset, plan, 'reset', False)
+        ret = self.trace.pop()
+        ret.update(ev='reset', ok=out == 'ok', got=self.cur_vals(self.m) if self.m is not None else {})
+        self.trace.append(ret)
+        return out
+
+    def wipe(self):
+        """the environment removes the persistent directory under the running process"""
+        d = posixpath.dirname(TARGET)
+        for f in [f for f in self.fs.files if f.startswith(d + '/')]:
+            del self.fs.files[f]
+        self.fs.dirs.discard(d)
+        self._last_target = 'absent'
+        self.trace.append({'ev': 'env', 'what': 'wipe', 'target': self.target_class()})
 
     def save(self, plan=None):
         return self.call(self.m.saveParameters, plan, 'save', True)
@@ -800,25 +928,21 @@ class _Srv:
 
 # ============================================================================ spec -> code replay
 
-def _pn(P):
-    return 'p' + P[1:]
-
-
-def _PN(p):
-    return 'P' + p[1:]
-
-
 NOTJSON = [b'', b'{', b'\xff\xfe\x00', b'{"p1": 1,', b'{\n  "p1": 1\n}\n}', b"{'p1': 1}", b'{"p1": 1}\x00garbage',
-           b'\xc3\x28{}', b'{"p1": }', b'nul']
+           b'\xc3\x28{}', b'{"p1": }', b'nul', b'[' * 100000, b'{"p1":' * 50000, b'{"p1": ' + b'9' * 5000 + b'}']
 NOTDICT = [b'[]', b'null', b'3', b'"x"', b'true', b'[{"p1": 1}]', b'1.5e3', b'[1, 2]\n']
-EXTRA = [('zz_unknown', 1), ('np', 1.5), ('status', [100, 'x']), ('', None), ('p1 ', {'a': []}), ('P1', 1)]
+# keys that are no persistent parameter of the module (np: not persistent, poff: persistent = off), with values
+# that would be valid for them
+EXTRA = [('np', 1.5), ('poff', 7), ('zz_unknown', 1), ('status', [100, 'x']), ('', None), ('p1 ', {'a': []}), ('P1', 1),
+         ('description', 'x'), ('pollinterval', 1.0)]
 
 
 class Replayer:
     """executes abstract actions of Gen_Persistent on a World and projects the state (alpha)"""
 
-    def __init__(self, types, auto, hw, variant=0):
-        self.w = World(types, auto=[_pn(P) for P in auto], haswrite=[_pn(P) for P in hw], buffered=bool(variant >> 4 & 1))
+    def __init__(self, types, auto, hw, variant=0, nodef=()):
+        ix = lambda names: [int(P[1:]) - 1 for P in names]
+        self.w = World(types, auto=ix(auto), haswrite=ix(hw), nodef=ix(nodef), buffered=bool(variant >> 4 & 1))
         self.variant = variant
         self.concrete = {}
 
@@ -837,33 +961,35 @@ class Replayer:
     def alpha_target(self):
         w = self.w
         raw = w.fs.files.get(TARGET)
-        none = {_PN(p): '-' for p in w.pnames}
+        none = {w.PN(p): '-' for p in w.pnames}
         if raw is None:
-            return {'k': 'absent', 'ent': none, 'extra': False}
+            return {'k': 'absent', 'ent': none, 'extra': '-'}
         try:
             obj = json.loads(raw.decode('utf-8'))
-        except ValueError:
-            return {'k': 'notjson', 'ent': none, 'extra': False}
+        except (ValueError, RecursionError):
+            return {'k': 'notjson', 'ent': none, 'extra': '-'}
         if not isinstance(obj, dict):
-            return {'k': 'notdict', 'ent': none, 'extra': False}
-        return {'k': 'json', 'ent': {_PN(p): self.alpha_entry(p, obj) for p in w.pnames},
-                'extra': any(k not in w.pnames for k in obj)}
+            return {'k': 'notdict', 'ent': none, 'extra': '-'}
+        return {'k': 'json', 'ent': {w.PN(p): self.alpha_entry(p, obj) for p in w.pnames},
+                'extra': 'v1' if any(k not in w.pnames for k in obj) else '-'}
 
     def alpha(self):
         w = self.w
         m = w.m
         if m is None:
-            none = {_PN(p): '-' for p in w.pnames}
-            return {'alive': False, 'target': self.alpha_target(), 'val': none, 'wd': none, 'skip': False}
-        return {'alive': True, 'target': self.alpha_target(),
-                'val': {_PN(p): w.alpha_val(p, m.parameters[p].value) for p in w.pnames},
-                'wd': {_PN(p): (w.alpha_val(p, m.writeDict[p]) if p in m.writeDict else '-') for p in w.pnames},
+            none = {w.PN(p): '-' for p in w.pnames}
+            return {'alive': False, 'target': self.alpha_target(), 'val': none, 'wd': none, 'skip': False,
+                    'err': [], 'fval': '-'}
+        return {'alive': True, 'target': self.alpha_target(), 'err': [w.PN(p) for p in w.errs()],
+                'fval': w.foreign_id(),
+                'val': {w.PN(p): w.alpha_val(p, m.parameters[p].value) for p in w.pnames},
+                'wd': {w.PN(p): (w.alpha_val(p, m.writeDict[p]) if p in m.writeDict else '-') for p in w.pnames},
                 'skip': w.skip_flag()}
 
     # -- gamma
     def corrupt(self, c, P):
         w = self.w
-        p = _pn(P)
+        p = w.pn(P)
         v = self.variant
         raw = w.fs.files.get(TARGET)
         if c == 'missing':
@@ -893,15 +1019,24 @@ class Replayer:
         w = self.w
         act = a['act']
         if act == 'start':
-            cfg = {_pn(P): w.gamma(_pn(P), v) for P, v in a['cfg'].items() if v != '-'}
-            return w.start(cfg, plan)
-        if act in ('writeinit', 'change', 'save') and w.m is None:
+            cfg = {w.pn(P): w.gamma(w.pn(P), v) for P, v in a['cfg'].items() if v != '-'}
+            cdef = {w.pn(P): w.gamma(w.pn(P), v) for P, v in a.get('cdef', {}).items() if v != '-'}
+            return w.start(cfg, plan, cdef)
+        if act in ('writeinit', 'change', 'save', 'fchange', 'reload', 'reset') and w.m is None:
             return 'no process'
+        if act == 'fchange':
+            return w.fchange(int(a['v'][1:]))
+        if act == 'reload':
+            return w.reload(plan)
+        if act == 'reset':
+            return w.reset(plan)
+        if act == 'wipe':
+            return w.wipe()
         if act == 'writeinit':
             return w.write_init(plan)
         if act == 'change':
-            p = _pn(a['p'])
-            return w.change(p, w.gamma(p, a['v']), plan)
+            p = w.pn(a['p'])
+            return w.change(p, w.gamma(p, a['v']), plan, via=a.get('via'))
         if act == 'save':
             return w.save(plan)
         if act == 'corrupt':
@@ -954,13 +1089,16 @@ def concrete_points(seg, f, nchunks, pick):
 
 def _match(exp, obs):
     return (exp['alive'] == obs['alive'] and exp['target'] == obs['target'] and exp['val'] == obs['val']
-            and exp['wd'] == obs['wd'] and obs['skip'] in exp['skip'])
+            and exp['wd'] == obs['wd'] and obs['skip'] in exp['skip']
+            and sorted(exp['err']) == obs['err'] and exp['fval'] == obs['fval'])
 
 
 def _diff(exps, obs):
     best = None
     for e in exps:
-        d = sorted(k for k in ('alive', 'target', 'val', 'wd') if e[k] != obs[k])
+        d = sorted(k for k in ('alive', 'target', 'val', 'wd', 'fval') if e[k] != obs[k])
+        if sorted(e['err']) != obs['err']:
+            d.append('err')
         if obs['skip'] not in e['skip']:
             d.append('skip')
         if best is None or len(d) < len(best):
@@ -971,12 +1109,12 @@ def _diff(exps, obs):
 def run_actions(acts, types, variant, plans, observe=True):
     """execute the action list; plans: {step: {op index: fault}}; returns (replayer, per-step obs, windows)"""
     st0 = next(a for a in acts if a['act'] == 'start')
-    rp = Replayer(types, st0['auto'], st0['hw'], variant)
+    rp = Replayer(types, st0['auto'], st0['hw'], variant, st0.get('nodef', ()))
     rp.w.recording = observe
     obs, wins, outs = [], [], []
     for k, a in enumerate(acts):
         outs.append(rp.step(a, plans.get(k)))
-        wins.append(list(rp.w.fs.window) if a['act'] != 'corrupt' else [])
+        wins.append(list(rp.w.fs.window) if a['act'] not in ('corrupt', 'wipe') else [])
         obs.append(rp.alpha() if observe else None)
     return rp, obs, wins, outs
 
@@ -1051,9 +1189,12 @@ def replay_group(job):
 # ============================================================================ code -> spec
 
 _TLC_FIELDS = {'fs': ('ev', 'op', 'out', 'target', 'cur', 'vals'), 'boot': ('ev', 'pre', 'file'),
-               'start': ('ev', 'ok', 'cfg', 'def', 'got', 'skip', 'target', 'cur'),
+               'start': ('ev', 'ok', 'cfg', 'cdef', 'def', 'got', 'skip', 'target', 'cur', 'nodef', 'err', 'fgot'),
                'ret': ('ev', 'call', 'out', 'must', 'faults', 'target', 'cur', 'skip'),
-               'reload': ('ev', 'out', 'ok', 'file', 'before', 'got', 'faults', 'target', 'cur', 'skip')}
+               'reload': ('ev', 'out', 'ok', 'file', 'before', 'got', 'faults', 'target', 'cur', 'skip', 'fbefore',
+                          'fgot'),
+               'reset': ('ev', 'out', 'ok', 'got', 'faults', 'target', 'cur', 'skip'),
+               'env': ('ev', 'what', 'target')}
 
 
 def tlc_view(trace):
@@ -1093,6 +1234,8 @@ def start_signature(boot, start, types):
         return sig
     for p in sorted(start['got']):
         cfg, fil, dfl, got = start['cfg'][p], boot['file'][p], start['def'][p], start['got'][p]
+        if start.get('cdef', {}).get(p, '-') != '-':
+            dfl = start['cdef'][p]
         exp = cfg if cfg != '-' else fil if fil not in ('-', 'bad') else dfl
         if got == exp:
             continue
@@ -1105,6 +1248,13 @@ def start_signature(boot, start, types):
         else:
             sig.update(clause='RoundTrip', cause='good_entry', effect='stored_value_not_restored', dtype=types.get(p, '?'))
         return sig
+    for p in sorted(start.get('err', {})):
+        if start['err'][p] and (boot['file'][p] not in ('-', 'bad') or start['cfg'][p] != '-'):
+            return {'module': 'Persistent', 'clause': 'RoundTrip', 'cause': 'restored_value',
+                    'effect': 'still_flagged_not_initialized'}
+    if any(v != 'v0' for v in start.get('fgot', {}).values()):
+        return {'module': 'Persistent', 'clause': 'Tolerant', 'cause': 'foreign_key',
+                'effect': 'entry_of_non_persistent_parameter_restored'}
     sig['effect'] = 'other'
     return sig
 
@@ -1114,8 +1264,9 @@ def trace_signature(trace, l, clause, types):
     # a rejection while a process starts: classify by the input (stored file / configuration) of that start
     bi = next((k for k in range(min(l, len(trace)) - 1, -1, -1) if trace[k]['ev'] == 'boot'), None)
     if bi is not None and ev.get('ev') in ('fs', 'start', 'boot'):
-        st = next((e for e in trace[bi:] if e['ev'] in ('start', 'ret')), None)
-        if st is not None and st['ev'] == 'start' and trace.index(st) >= l - 1:
+        si = next((k for k in range(bi, len(trace)) if trace[k]['ev'] in ('start', 'ret')), None)
+        st = None if si is None else trace[si]
+        if st is not None and st['ev'] == 'start' and si >= l - 1:
             sig = start_signature(trace[bi], st, types)
             if sig.get('effect') != 'other':
                 return sig
@@ -1123,8 +1274,14 @@ def trace_signature(trace, l, clause, types):
     if ev.get('ev') == 'fs':
         sig.update(op=ev['op'], out=ev['out'].split(':')[0],
                    target='object_not_standing_for_current_values' if ev['target'].startswith('c:') else ev['target'])
+        if ev.get('notstored'):
+            sig = {'module': 'Persistent', 'clause': 'RoundTrip', 'cause': 'value_not_stored',
+                   'dtypes': '+'.join(ev['notstored'])}
     if ev.get('ev') == 'ret':
         sig.update(call=ev['call'], out=ev['out'], faulted=ev['faults'] > 0)
+    if ev.get('ev') == 'reload' and clause == 'Foreign':
+        sig = {'module': 'Persistent', 'clause': 'Tolerant', 'cause': 'foreign_key', 'at': 'reload',
+               'effect': 'entry_of_non_persistent_parameter_restored'}
     if ev.get('ev') == 'reload' and clause == 'Reload.values':
         sig = start_signature(ev, ev, types)
         sig['at'] = 'reload'
@@ -1135,12 +1292,11 @@ def trace_signature(trace, l, clause, types):
 
 # ---- generators of executions (each returns {'gen':..., 'types':..., 'trace':[...]})
 
-def _rand_world(rnd, nmax=4):
+def _rand_world(rnd, nmax=4, limits=False):
     n = rnd.randint(1, nmax)
-    types = tuple(rnd.choice(ALLTYPES) for _ in range(n))
-    pn = ['p%d' % (k + 1) for k in range(n)]
-    auto = [p for p in pn if rnd.random() < 0.5]
-    hw = [p for p in pn if rnd.random() < 0.4]
+    types = tuple(rnd.choice(ALLTYPES if limits else ALLTYPES[:-2]) for _ in range(n))
+    auto = [k for k in range(n) if rnd.random() < 0.5]
+    hw = [k for k in range(n) if rnd.random() < 0.4]
     return types, auto, hw
 
 
@@ -1194,19 +1350,26 @@ def _rand_corrupt(rnd, w):
 def random_history(arg):
     seed, nsteps, corrupting = arg
     rnd = random.Random(seed)
-    types, auto, hw = _rand_world(rnd)
-    w = World(types, auto, hw, buffered=rnd.random() < 0.5)
-    log = []
+    types, auto, hw = _rand_world(rnd, limits=seed % 4 == 1)
+    nodef = [k for k in range(len(types)) if rnd.random() < 0.3]
+    w = World(types, auto, hw, buffered=rnd.random() < 0.5, nodef=nodef)
 
-    def rcfg():
-        return {p: rnd.choice(w.values[p]) for p in w.pnames if rnd.random() < 0.25}
+    def start(plan=None):
+        cfg, cdef = {}, {}
+        for p in w.pnames:
+            r = rnd.random()
+            if r < 0.2 and w.types[p] not in LIMIT_POSTFIX:
+                cfg[p] = rnd.choice(w.values[p])
+            elif r < 0.3 and w.types[p] not in LIMIT_POSTFIX:
+                cdef[p] = rnd.choice(w.values[p])
+        return w.start(cfg, plan, cdef)
 
-    w.start(rcfg(), _rand_plan(rnd, True, 0.15))
+    start(_rand_plan(rnd, True, 0.15))
     for _ in range(nsteps):
         if w.m is None:
             if corrupting and rnd.random() < 0.3:
                 _rand_corrupt(rnd, w)
-            out = w.start(rcfg(), _rand_plan(rnd, True, 0.15))
+            out = start(_rand_plan(rnd, True, 0.15))
             if out == 'failed':
                 break
             continue
@@ -1217,17 +1380,26 @@ def random_history(arg):
                 w.write_init(_rand_plan(rnd, pfault=0.2))
             else:
                 w.save(_rand_plan(rnd))
-        elif r < 0.17:
-            w.reload()
+        elif r < 0.05:
+            w.reload(_rand_plan(rnd, pfault=0.2))
+        elif r < 0.09:
+            w.reset(_rand_plan(rnd, pfault=0.2))
+        elif r < 0.12:
+            w.fchange(rnd.randrange(3))
+        elif r < 0.15:
+            w.wipe()
         elif r < 0.62:
             p = rnd.choice(w.pnames)
-            w.change(p, rnd.choice(w.values[p]), _rand_plan(rnd))
+            via = rnd.choice(['set', 'read'] + (['write'] if p in w.haswrite else []))
+            w.change(p, rnd.choice(w.values[p]), _rand_plan(rnd), via=via, fail=rnd.random() < 0.08)
         elif r < 0.9:
             w.save(_rand_plan(rnd))
         else:
             w.stop()            # restart follows
     if w.m is not None or rnd.random() < 0.5:
-        w.start(rcfg())
+        if w.m is not None:
+            w.stop()
+        start()
     return {'gen': ['random_history', list(arg)], 'types': w.types, 'trace': compress(w.trace)}
 
 
